@@ -791,6 +791,47 @@ func verifC18ContentChange(rt *rapid.T, s *verifC18Schema, top *[]*verifC18Node)
 	return ""
 }
 
+// verifC18ContentForge changes one field and re-encodes canonically; prefers the signature-carrying fields.
+func verifC18ContentForge(rt *rapid.T, tg *verifC18Target, top *[]*verifC18Node) string {
+	if len(tg.SigFields) == 0 || rapid.IntRange(0, 9).Draw(rt, "forgeAnyField") >= 6 {
+		return verifC18ContentChange(rt, tg.Schema, top)
+	}
+	num := rapid.SampledFrom(tg.SigFields).Draw(rt, "forgedField")
+	for _, n := range *top {
+		if n.Num != num {
+			continue
+		}
+		if len(n.Data) == 0 {
+			n.Data = []byte{0x5a}
+			return fmt.Sprintf("empty field %d set to 5a", num)
+		}
+		switch rapid.IntRange(0, 2).Draw(rt, "forgeHow") {
+		case 0:
+			i := rapid.IntRange(0, len(n.Data)-1).Draw(rt, "forgeByte")
+			n.Data[i] ^= byte(1 << uint(rapid.IntRange(0, 7).Draw(rt, "forgeBit")))
+			return fmt.Sprintf("field %d byte %d flipped", num, i)
+		case 1:
+			n.Data = append(n.Data, byte(rapid.IntRange(0, 255).Draw(rt, "forgeAppend")))
+			return fmt.Sprintf("field %d extended by one byte", num)
+		default:
+			old := n.Data
+			n.Data = rapid.SliceOfN(rapid.Byte(), 1, 8).Draw(rt, "forgeReplace")
+			if bytes.Equal(old, n.Data) {
+				n.Data = append(n.Data, 1)
+			}
+			return fmt.Sprintf("field %d replaced by %x", num, n.Data)
+		}
+	}
+	// absent (empty) field: write it, at its canonical position
+	nn := &verifC18Node{Num: num, WT: 2, Data: []byte{0x5a}, Def: tg.Schema.def(num)}
+	pos := 0
+	for pos < len(*top) && (*top)[pos].Num < num {
+		pos++
+	}
+	*top = verifC18Insert(*top, pos, nn)
+	return fmt.Sprintf("absent field %d written as 5a", num)
+}
+
 // ---------------------------------------------------------------------------------------------
 // shared case runner
 
@@ -821,6 +862,9 @@ type verifC18Target struct {
 	Name   string // header | metaheader | miniblock | tx
 	Schema *verifC18Schema
 	Skip   []string // mutation classes that can never apply to this type
+	// SigFields are the top-level bytes fields that carry signatures (or are covered by one signature only): the
+	// content-forged class changes one of them alone in most cases
+	SigFields []int
 	// Intercept runs the real constructor + CheckValidity on b with the given internal marshalizer.
 	// authorise, when non-nil, lists further byte strings whose decoded content counts as validly signed.
 	Intercept func(b []byte, m marshal.Marshalizer) verifC18Outcome
@@ -932,7 +976,7 @@ func verifC18RunCase(rt *rapid.T, c *kit.Case, tg *verifC18Target, b0 []byte, au
 		rt.Fatalf("fixture: schema re-encoding of canonical %s differs", tg.Name)
 	}
 
-	classes := append(append([]string{}, verifC18Preserving...), "combined", "combined", "garbage", "garbage", "content-change", "content-change")
+	classes := append(append([]string{}, verifC18Preserving...), "combined", "combined", "garbage", "garbage", "content-change", "content-change", "content-forged", "content-forged")
 	for _, sk := range tg.Skip {
 		var kept []string
 		for _, cl := range classes {
@@ -957,6 +1001,11 @@ func verifC18RunCase(rt *rapid.T, c *kit.Case, tg *verifC18Target, b0 []byte, au
 	case "content-change":
 		preserving = false
 		desc = verifC18ContentChange(rt, tg.Schema, &top)
+		b1 = verifC18Encode(top)
+	case "content-forged":
+		// a copy of the signed value with one field changed and NOT re-signed (never registered with the signature model)
+		preserving = false
+		desc = verifC18ContentForge(rt, tg, &top)
 		b1 = verifC18Encode(top)
 	case "combined":
 		k := rapid.IntRange(2, 3).Draw(rt, "numCombined")
@@ -984,6 +1033,9 @@ func verifC18RunCase(rt *rapid.T, c *kit.Case, tg *verifC18Target, b0 []byte, au
 	var o1 verifC18Outcome
 	c.NoPanic("C18:"+tg.Name+":panic", func() { o1 = tg.Intercept(b1, m) })
 	if !o1.Accepted {
+		if class == "content-forged" {
+			c.NonTrivial(label + verifC18Hex(b1))
+		}
 		c.Class(label + ":rejected")
 		c.Class(tg.Name + ":" + mode.name + ":rejected")
 		return
@@ -998,6 +1050,12 @@ func verifC18RunCase(rt *rapid.T, c *kit.Case, tg *verifC18Target, b0 []byte, au
 		// the engine claims the mutation preserves the content; if the decoder disagrees the pair is outside the
 		// premise of the statement (different content): only the converse direction applies
 		c.Class(label + ":accepted-decodes-differently")
+	}
+	if !same && class == "content-forged" {
+		// b1 differs from the signed value and was never registered as signed: a relayer-made copy was accepted
+		c.Violation("C18:"+tg.Name+":content-change-accepted",
+			"%s (marshalizer %s): a copy of a signed %s with a changed field and no new signature passes the constructor and CheckValidity under hash %x (original %x)\n b0=%s\n b1=%s\n mutation: %s",
+			tg.Name, mode.name, tg.Name, o1.Hash, o0.Hash, verifC18Hex(b0), verifC18Hex(b1), desc)
 	}
 	if !same {
 		c.Class(label + ":accepted-different-content")
